@@ -490,8 +490,10 @@ def cMemberItem (o : Out) : Str :=
   | none => o.cname ++ [',']
 
 /-- The strings wrapc.wrap_enum appends to `enum_impl` (`+`/`-` are the indent
-    directives of `write_lines`). -/
+    directives of `write_lines`).  Nothing is written for an enumeration without
+    members (an empty enumerator list is not C). -/
 def cItems (b : BlockCfg) (os : List Out) : List Str :=
+  if os.isEmpty then [] else   -- `if not ast.members: return`
   stripLastChar ([[], "//  ".toList ++ b.nsScope ++ b.cfg.ename,
       "enum ".toList ++ cEnumName b.cfg ++ " {+".toList] ++ os.map cMemberItem) ++ ["-};".toList]
 
